@@ -148,7 +148,13 @@ def judge_by_trace(ctx, inp, devs=(), label="judge"):
 
 def explain(ctx, inp):
     """Names of the deviations under which the real behaviour on this case is what the model predicts."""
-    return [d for d in DEVS if judge_by_trace(ctx, inp, devs=[d], label="explain")[0]]
+    out = []
+    for d in sorted(DEVS, key=lambda d: d not in ctx.known):       # known ones first: one of them is all the report needs
+        if judge_by_trace(ctx, inp, devs=[d], label="explain")[0]:
+            out.append(d)
+            if d in ctx.known:
+                break
+    return out
 
 
 # ------------------------------------------------------------------ classification (from the failing case only)
